@@ -205,6 +205,18 @@ func (c *EvalCtx) ident(name string) EV {
 		return EV{Tuple: c.results}
 	}
 	if c.contract != nil {
+		for _, gv := range c.contract.GhostVars {
+			if gv.Name == name {
+				ty, err := fr.R.Eng.ResolveType(gv.Type, c.pkgPath)
+				if err != nil {
+					c.fail("%v", err)
+				}
+				if t, ok := c.st.ghost["gv."+name]; ok {
+					return EV{T: t, Ty: ty}
+				}
+				return c.eval(gv.Init)
+			}
+		}
 		for _, g := range c.contract.Ghosts {
 			if g.Name == name {
 				return c.eval(g.E)
